@@ -93,7 +93,8 @@ def _create_clustered_data_arr(
     for idx, cluster_id in enumerate(sorted(raw_data.keys())):
         val = np.sum(np.array(raw_data[cluster_id]), axis=0)
         cluster_outlier_prob = cluster_outlier_probs[cluster_id]
-        out_probs = compute_outlier_prob(cluster_outlier_prob, cluster_sizes[cluster_id])
+        # Size of the cluster as loaded: only its members that passed the filters contribute a grid
+        out_probs = compute_outlier_prob(cluster_outlier_prob, len(raw_data[cluster_id]))
 
         data_point = phyclone.data.base.DataPoint(
             idx,
